@@ -76,6 +76,8 @@ def run_prot(prop, tier, seed, fail=False):
         res.distinct.add(hashlib.sha1(i.encode()).hexdigest())
         if len(res.samples) < 6 and res.evaluations % 997 == 1:
             res.samples.append({"request": c.line, "answers": {"impl": i[:500]}})
+        if i == "n/a":
+            continue
         if i in ("missing", "panic") or i.startswith("abort"):
             res.violations.append({"kind": "impl-" + i.split("(")[0], "line": c.line, "answers": answers, "why": "the runner process died or panicked outside a token (SIGSEGV/abort in the implementation)"})
             continue
